@@ -1162,7 +1162,7 @@ func runC17Paced(c *Ctx, bt *Batch) {
 	if c.KnutBin == "" {
 		return
 	}
-	n := c.N(10, 120)
+	n := c.N(10, 60)
 	npace := c.N(3, 5)
 	dir := filepath.Join(c.WorkDir, "c17p")
 	os.MkdirAll(dir, 0o755)
@@ -1183,7 +1183,7 @@ func runC17Paced(c *Ctx, bt *Batch) {
 		case 1, 2:
 			leaves = r.Range(150, 800)
 		default:
-			leaves = r.Range(800, c.N(2000, 6000))
+			leaves = r.Range(800, c.N(2000, 3500))
 		}
 		text, args, digits, k := genC17BigJournal(r, leaves)
 		if c.Replay && c.ReplayInput != nil {
